@@ -6,7 +6,7 @@
 (* CallBuiltin(f, hasRecv, recv, args) is an abstract outcome; a function *)
 (* for which no property gives a meaning on the given shape is AnyOut.       *)
 (***************************************************************************)
-EXTENDS Values
+EXTENDS Strings
 
 Digit0 == 48
 IsDigitCp(c) == c >= 48 /\ c <= 57
@@ -118,7 +118,7 @@ ConvDouble(v) ==
     CASE v.t = "dbl"  -> Ok(v)
       [] v.t \in {"int", "uint", "bool"} -> Ok(VDbl(DFromBig(NumOf(v))))
       [] v.t = "str"  -> LET p == ParseDecimal(v.s) IN
-                         IF p.ok THEN (IF p.E > -400 /\ p.E < 400 /\ Len(v.s) < 60 THEN Ok(VDbl(DFromDecimal(p.neg, p.D, p.E))) ELSE AnyOut)
+                         IF p.ok THEN (IF p.E > -800 /\ p.E < 400 /\ Len(v.s) < 900 THEN Ok(VDbl(DFromDecimal(p.neg, p.D, p.E))) ELSE AnyOut)
                          ELSE IF Numericish(v.s) THEN AnyOut ELSE Err("other")
       [] OTHER        -> Err("other")
 
@@ -187,10 +187,109 @@ BuiltinNames == {"size", "sort", "min", "max",
                  "getDate", "getDayOfMonth", "getDayOfWeek", "getDayOfYear", "getFullYear", "getHours",
                  "getMilliseconds", "getMinutes", "getMonth", "getSeconds", "now", "zip", "uomConvert"}
 
+(* string functions: method form  s.f(args)  with string arguments *)
+StrArgs(args, k) == Len(args) = k /\ \A i \in 1..Len(args) : args[i].t = "str"
+ListOfStr(ps) == VList([i \in 1..Len(ps) |-> VStr(ps[i])])
+StringFunc(f, recv, args) ==
+    IF recv.t # "str" THEN Err("other")
+    ELSE LET s == recv.s IN
+    CASE f \in {"contains", "startsWith", "endsWith", "containsI", "startsWithI", "endsWithI"} ->
+           IF ~StrArgs(args, 1) THEN Err("other")
+           ELSE LET n == args[1].s
+                    ci == f \in {"containsI", "startsWithI", "endsWithI"}
+                IN IF ci /\ ~(AllCaseKnown(s) /\ AllCaseKnown(n)) THEN AnyOut
+                   ELSE LET a == IF ci THEN ToLower(s) ELSE s
+                            b == IF ci THEN ToLower(n) ELSE n
+                        IN Ok(VBool(CASE f \in {"contains", "containsI"} -> IsSubstring(b, a)
+                                      [] f \in {"startsWith", "startsWithI"} -> StartsWith(a, b)
+                                      [] OTHER -> EndsWith(a, b)))
+      [] f \in {"split", "rsplit"} ->
+           IF ~StrArgs(args, 1) THEN Err("other")
+           ELSE IF args[1].s = <<>> THEN AnyOut
+           ELSE Ok(ListOfStr(IF f = "split" THEN SplitLeft(s, args[1].s) ELSE SplitRight(s, args[1].s)))
+      [] f = "replace" ->
+           IF ~StrArgs(args, 2) THEN Err("other")
+           ELSE IF args[1].s = <<>> THEN AnyOut ELSE Ok(VStr(ReplaceAll(s, args[1].s, args[2].s)))
+      [] f = "remove" ->
+           IF ~StrArgs(args, 1) THEN Err("other")
+           ELSE IF args[1].s = <<>> THEN AnyOut ELSE Ok(VStr(ReplaceAll(s, args[1].s, <<>>)))
+      [] f = "trim" -> IF Len(args) # 0 THEN Err("other") ELSE Ok(VStr(TrimEndWs(TrimStartWs(s))))
+      [] f = "trimStart" -> IF Len(args) # 0 THEN Err("other") ELSE Ok(VStr(TrimStartWs(s)))
+      [] f = "trimEnd" -> IF Len(args) # 0 THEN Err("other") ELSE Ok(VStr(TrimEndWs(s)))
+      [] f = "trimStartMatches" ->
+           IF ~StrArgs(args, 1) THEN Err("other") ELSE IF args[1].s = <<>> THEN AnyOut ELSE Ok(VStr(StripPrefix(s, args[1].s)))
+      [] f = "trimEndMatches" ->
+           IF ~StrArgs(args, 1) THEN Err("other") ELSE IF args[1].s = <<>> THEN AnyOut ELSE Ok(VStr(StripSuffix(s, args[1].s)))
+      [] f = "splitWhiteSpace" -> IF Len(args) # 0 THEN Err("other") ELSE Ok(ListOfStr(Words(s, 1, <<>>, <<>>)))
+      [] f \in {"toLower", "toUpper"} ->
+           IF Len(args) # 0 THEN Err("other")
+           ELSE IF ~AllCaseKnown(s) THEN AnyOut
+           ELSE Ok(VStr(IF f = "toLower" THEN ToLower(s) ELSE ToUpper(s)))
+      [] f = "splitAt" ->
+           IF Len(args) # 1 THEN Err("other")
+           ELSE IF args[1].t # "int" THEN (IF args[1].t = "uint" THEN AnyOut ELSE Err("other"))
+           ELSE IF args[1].n.s < 0 \/ ~BFitsInt(args[1].n) THEN Err("other")
+           ELSE LET k == PrefixOfBytes(s, 1, BToInt(args[1].n))
+                IN IF k < 0 THEN Err("other")
+                   ELSE Ok(ListOfStr(<<SubSeq(s, 1, k), SubSeq(s, k + 1, Len(s))>>))
+      [] f \in {"matches", "matchCaptures"} -> IF ~StrArgs(args, 1) THEN Err("other") ELSE AnyOut    \* decided by the regex laws
+      [] f \in {"matchReplace", "matchReplaceOnce"} -> IF ~StrArgs(args, 2) THEN Err("other") ELSE AnyOut
+      [] OTHER -> AnyOut
+StringFuncNames == {"contains", "containsI", "startsWith", "endsWith", "startsWithI", "endsWithI", "split", "rsplit", "replace", "remove",
+                    "trim", "trimStart", "trimEnd", "trimStartMatches", "trimEndMatches", "splitWhiteSpace", "toLower", "toUpper", "splitAt",
+                    "matches", "matchCaptures", "matchReplace", "matchReplaceOnce"}
+
+(* math: one numeric argument (or receiver); pow: two *)
+SatInt(n) == IF InIntRange(n) THEN Ok(VInt(n)) ELSE Opt(VInt(Clamp(n, IntMin, IntMax)))
+PowInt(b, e, rt) ==      \* b, e Big; result type rt
+    IF e.s < 0 THEN Err("other")
+    ELSE IF BCmp(BAbs(b), BOne) <= 0
+         THEN (IF b.s = 0 THEN (IF e.s = 0 THEN Ok([t |-> rt, n |-> BOne]) ELSE Ok([t |-> rt, n |-> BZero]))
+               ELSE IF b.s > 0 THEN Ok([t |-> rt, n |-> BOne])
+               ELSE Ok([t |-> rt, n |-> IF e.s = 0 \/ MIsEven(e.m) THEN BOne ELSE BNeg(BOne)]))
+    ELSE IF ~BFitsInt(e) \/ BToInt(e) > 64 THEN Err("other")
+    ELSE LET m == MPow(b.m, BToInt(e))
+             r == BMk(IF b.s < 0 /\ BToInt(e) % 2 = 1 THEN -1 ELSE 1, m)
+         IN IF (rt = "int" /\ InIntRange(r)) \/ (rt = "uint" /\ InUintRange(r)) THEN Ok([t |-> rt, n |-> r]) ELSE Err("other")
+MathFunc(f, all) ==
+    LET n == Len(all) IN
+    CASE f = "abs" -> IF n # 1 THEN Err("other")
+                      ELSE (CASE all[1].t = "int" -> (IF InIntRange(BAbs(all[1].n)) THEN Ok(VInt(BAbs(all[1].n))) ELSE Err("other"))
+                              [] all[1].t = "uint" -> Ok(all[1])
+                              [] all[1].t = "dbl" -> Ok(VDbl(DAbs(DOf(all[1]))))
+                              [] OTHER -> Err("other"))
+      [] f = "sqrt" -> IF n # 1 THEN Err("other")
+                       ELSE IF all[1].t \in {"int", "uint", "dbl"} THEN Ok(VDbl(DSqrt(ToDbl(all[1])))) ELSE Err("other")
+      [] f \in {"log", "lg"} ->
+             IF n # 1 THEN Err("other")
+             ELSE (CASE all[1].t \in {"int", "uint"} ->
+                          (IF all[1].n.s <= 0 THEN Err("other")
+                           ELSE Ok([t |-> all[1].t, n |-> BFromInt(ILog(all[1].n.m, IF f = "log" THEN <<10>> ELSE <<2>>, 0))]))
+                     [] all[1].t = "dbl" -> AnyOut
+                     [] OTHER -> Err("other"))
+      [] f \in {"ceil", "floor", "round"} ->
+             IF n # 1 THEN Err("other")
+             ELSE (CASE all[1].t \in {"int", "uint"} -> Ok(all[1])
+                     [] all[1].t = "dbl" ->
+                          LET d == DOf(all[1]) IN
+                          IF DIsNaN(d) THEN AnyOut
+                          ELSE IF DIsInf(d) THEN Opt(VInt(IF d.neg THEN IntMin ELSE IntMax))
+                          ELSE SatInt(IF f = "ceil" THEN DCeil(d) ELSE IF f = "floor" THEN DFloor(d) ELSE DRoundHalfAway(d))
+                     [] OTHER -> Err("other"))
+      [] f = "pow" ->
+             IF n # 2 THEN Err("other")
+             ELSE IF all[1].t \in {"int", "uint"} /\ all[2].t \in {"int", "uint"} THEN PowInt(all[1].n, all[2].n, all[1].t)
+             ELSE IF all[1].t \in {"int", "uint", "dbl"} /\ all[2].t \in {"int", "uint", "dbl"} THEN AnyOut
+             ELSE Err("other")
+      [] OTHER -> AnyOut
+MathFuncNames == {"abs", "sqrt", "log", "lg", "ceil", "floor", "round", "pow"}
+
 CallBuiltin(f, hasRecv, recv, args) ==
     LET all == IF hasRecv THEN <<recv>> \o args ELSE args
         n   == Len(all)
-    IN CASE f = "size"   -> IF n = 1 THEN Size(all[1]) ELSE Err("other")
+    IN CASE f \in StringFuncNames -> IF hasRecv THEN StringFunc(f, recv, args) ELSE AnyOut
+         [] f \in MathFuncNames -> IF hasRecv THEN AnyOut ELSE MathFunc(f, all)      \* documented as functions, not methods
+         [] f = "size"   -> IF n = 1 THEN Size(all[1]) ELSE Err("other")
          [] f = "int"    -> IF hasRecv THEN AnyOut ELSE IF n = 1 THEN ConvInt(all[1]) ELSE Err("other")
          [] f = "uint"   -> IF hasRecv THEN AnyOut ELSE IF n = 1 THEN ConvUint(all[1]) ELSE Err("other")
          [] f \in {"double", "float"} -> IF hasRecv THEN AnyOut ELSE IF n = 1 THEN ConvDouble(all[1]) ELSE Err("other")
